@@ -118,7 +118,8 @@ def case_ops(ctx, cfg):
     lams = list(C.LAMBDAS)
     complex_ok = name.split("(")[0] in ("join", "meet", "crossratio") or name in ("P==P", "L==L")
     affine_ops = ("P.normalized_array", "P+P", "P-P", "P*c")
-    for ci, spec in enumerate(C.op_configs(op)):
+    # thorough: four times as many base configurations per operation (evenly spread over the product of the pools)
+    for ci, spec in enumerate(C.op_configs(op, 4 if ctx.tier == "thorough" else 1)):
         if name in affine_ops and any(k == "P2" and s[-1] == 0 for k, s in zip(op.kinds, spec)):
             ctx.skipped += 1  # a point at infinity acts as a direction vector there: its magnitude matters by definition (C19)
             continue
